@@ -5,6 +5,8 @@ CONSTANTS
   SpecSet = {"s1", "s2"}
   SizeSet = {"A", "dyn"}
   TermSet = {1, 2}
+  KindSet = {"path", "pil", "url"}
+  PeerVars = {"same", "other"}
   FaultSteps = {"open", "seek", "convert", "resize", "composite", "encode"}
 VIEW View
 CONSTRAINT Bound
@@ -20,4 +22,5 @@ PROPERTY SizeNeverChangedByRender
 PROPERTY AnimatedDrawKeepsFrame
 PROPERTY RejectedLeavesStateAlone
 PROPERTY SeekKeepsRepeatCount
+PROPERTY ImagesIndependent
 CHECK_DEADLOCK FALSE
